@@ -2,7 +2,7 @@
     proxy/http_headers.go:150-181, uuid/format.go:36-62).
     This file contains only statements, [exact], and [Print Assumptions]. *)
 From Coq Require Import String List NArith ZArith.
-From Fabio Require Import Lib.Outcome Lib.Bytes Model.Logger Model.LoggerSpec Proofs.Logger Proofs.LoggerCal Proofs.LoggerFields.
+From Fabio Require Import Lib.Outcome Lib.Bytes Model.Logger Model.LoggerSpec Proofs.Logger Proofs.LoggerCal Proofs.LoggerFields Model.LoggerServe Proofs.LoggerServe.
 Import ListNotations.
 Local Open Scope N_scope.
 
@@ -290,21 +290,24 @@ Theorem C20_string_fields_identity : forall e,
   (forall r, e_req e = Some r ->
      render_field FRemoteAddr e = Ok (rq_remote r) /\
      render_field FRequest e = Ok (rq_method r ++ [32] ++ rq_uri r ++ [32] ++ rq_proto r) /\
-     render_field FRequestHost e = Ok (rq_host r) /\ render_field FRequestMethod e = Ok (rq_method r) /\
+     (e_requrl e = None -> render_field FRequestHost e = Ok (rq_host r)) /\
+     render_field FRequestMethod e = Ok (rq_method r) /\
      render_field FRequestURI e = Ok (rq_uri r) /\ render_field FRequestProto e = Ok (rq_proto r) /\
      exists h p, hostport_spec (rq_remote r) h p /\
                  render_field FRemoteHost e = Ok h /\ render_field FRemotePort e = Ok p) /\
   (e_req e = None ->
      Forall (fun f => render_field f e = Ok [])
-            [FRemoteAddr; FRemoteHost; FRemotePort; FRequest; FRequestHost; FRequestMethod;
+            [FRemoteAddr; FRemoteHost; FRemotePort; FRequest; FRequestMethod;
              FRequestURI; FRequestProto]) /\
   (forall u, e_requrl e = Some u ->
      render_field FRequestArgs e = Ok (u_rawquery u) /\ render_field FRequestScheme e = Ok (u_scheme u) /\
+     render_field FRequestHost e = Ok (u_host u) /\
      render_field FRequestURL e = Ok (u_string u)) /\
   (forall u, e_upurl e = Some u ->
      render_field FUpReqScheme e = Ok (u_scheme u) /\ render_field FUpReqURI e = Ok (u_requri u) /\
      render_field FUpReqURL e = Ok (u_string u)) /\
   (e_requrl e = None -> Forall (fun f => render_field f e = Ok []) [FRequestArgs; FRequestScheme; FRequestURL]) /\
+  (e_requrl e = None -> e_req e = None -> render_field FRequestHost e = Ok []) /\
   (e_upurl e = None -> Forall (fun f => render_field f e = Ok []) [FUpReqScheme; FUpReqURI; FUpReqURL]).
 Proof. exact string_fields_identity. Qed.
 Print Assumptions C20_string_fields_identity.
@@ -360,3 +363,57 @@ Theorem C20_rw_example :
   rw_run [RwHeader 103; RwHeader 102; RwHeader 201; RwWrite 100; RwWrite 51] = (201, 151)%Z.
 Proof. exact rw_example. Qed.
 Print Assumptions C20_rw_example.
+
+(* ================= what ServeHTTP says about the request (Model/LoggerServe.v) =================
+   Event.RequestURL ($request_url / $request_scheme / $request_args) is a function of the request
+   AS RECEIVED: no route option (host=dst, host=<name>, strip, prepend, target) and nothing
+   addHeaders adds later (X-Forwarded-Proto, Forwarded) can influence it, for all requests/options *)
+Theorem C20_request_url_depends_only_on_request : forall r o1 o2,
+  sv_request_url (serve_event r o1) = sv_request_url (serve_event r o2) /\
+  sv_request_url (serve_event r o1) = request_url_at r (st_received r).
+Proof. exact request_url_depends_only_on_request. Qed.
+Print Assumptions C20_request_url_depends_only_on_request.
+
+Theorem C20_request_url_as_received : forall r o,
+  let u := sv_request_url (serve_event r o) in
+  up_host u = ir_host r /\ up_path u = ir_path r /\ up_query u = ir_query r /\
+  up_scheme u = scheme_of (ir_xfp r) (ir_fwd r) (ir_ws r) (ir_tls r).
+Proof. exact request_url_as_received. Qed.
+Print Assumptions C20_request_url_as_received.
+
+Theorem C20_scheme_of_cases : forall xfp fwd ws tls,
+  (xfp <> [] -> fwd = [] -> scheme_of xfp fwd ws tls = xfp) /\
+  (xfp <> [] -> fwd <> [] -> scheme_of xfp fwd ws tls = conn_scheme ws tls) /\
+  (xfp = [] -> fwd = [] -> scheme_of xfp fwd ws tls = conn_scheme ws tls).
+Proof. exact scheme_of_cases. Qed.
+Print Assumptions C20_scheme_of_cases.
+
+(* the request URL built late (where the Event is built) would describe a request the client
+   never sent: what seeded change C20-G does *)
+Theorem C20_lazy_request_url_refuted :
+  up_host (sv_request_url (serve_event_lazy (ex_inreq []) (ex_ropt (bs "dst")))) = bs "127.0.0.1:5000" /\
+  up_host (sv_request_url (serve_event (ex_inreq []) (ex_ropt (bs "dst")))) = bs "example.com" /\
+  up_scheme (sv_request_url (serve_event_lazy (ex_inreq (bs "https")) (ex_ropt []))) = bs "http" /\
+  up_scheme (sv_request_url (serve_event (ex_inreq (bs "https")) (ex_ropt []))) = bs "https".
+Proof. exact lazy_request_url_refuted. Qed.
+Print Assumptions C20_lazy_request_url_refuted.
+
+(* F-C20-4 (open): Event.Request is the live request, so $request_host shows the host a host=
+   route option wrote into it; outside that region all request-side fields are as received *)
+Theorem C20_request_host_rewritten_refuted :
+  exists r o, sv_request_host (serve_event r o) <> ir_host r /\
+              up_host (sv_request_url (serve_event r o)) = ir_host r.
+Proof. exact request_host_rewritten_refuted. Qed.
+Print Assumptions C20_request_host_rewritten_refuted.
+
+Theorem C20_request_side_on_domain : forall r o,
+  region_host_rewritten r o = false ->
+  request_side_as_received r (sv_request_url (serve_event r o)) (sv_request_host (serve_event r o)) = true.
+Proof. exact request_side_on_domain. Qed.
+Print Assumptions C20_request_side_on_domain.
+
+Theorem C20_request_side_on_domain_nonvacuous :
+  region_host_rewritten (ex_inreq (bs "https")) (ex_ropt []) = false /\
+  region_host_rewritten (ex_inreq []) (ex_ropt (bs "dst")) = true.
+Proof. exact request_side_on_domain_nonvacuous. Qed.
+Print Assumptions C20_request_side_on_domain_nonvacuous.
